@@ -123,8 +123,11 @@ primary ::= '(' union ')'                       -- ParenthesizedType
 qname   ::= ident ('.' ident)*
 ```
 Whitespace is skipped between tokens.  Fuel-based, structurally recursive. -/
-def isIdStart (c : Char) : Bool := c.isAlpha || c = '_' || c = '$'
-def isIdChar (c : Char) : Bool := c.isAlphanum || c = '_' || c = '$'
+def isLetter (c : Char) : Bool := ('a' ≤ c ∧ c ≤ 'z') ∨ ('A' ≤ c ∧ c ≤ 'Z')
+def isDigitC (c : Char) : Bool := '0' ≤ c ∧ c ≤ '9'
+/-- IdentifierStart / IdentifierPart of the ASCII identifiers the tool can emit -/
+def isIdStart (c : Char) : Bool := isLetter c || c = '_' || c = '$'
+def isIdChar (c : Char) : Bool := isLetter c || isDigitC c || c = '_' || c = '$'
 
 /-- ECMAScript reserved words (+ strict-mode / module-code reserved identifiers) that are legal Rust identifiers
     or can arise from them -/
